@@ -1220,6 +1220,23 @@ fn sys_power_levels(g: &mut Gen<'_>, v: u32) {
     }
 }
 
+/// ruma's `TimelineEventType` maps this pre-standard name to `m.call.sdp_stream_metadata_changed`
+/// (open finding C08-type-alias): `events` entries under the alias apply to the standard type.
+pub const TYPE_ALIAS: &str = "org.matrix.call.sdp_stream_metadata_changed";
+pub const TYPE_ALIASED: &str = "m.call.sdp_stream_metadata_changed";
+
+fn sys_type_alias(g: &mut Gen<'_>, v: u32) {
+    for (key, ty) in [(TYPE_ALIAS, TYPE_ALIASED), (TYPE_ALIASED, TYPE_ALIASED), (TYPE_ALIAS, "m.room.message")] {
+        for lvl in [49i64, 50, 51] {
+            let mut c = Case::base(v);
+            c.set_member(ALICE, 1);
+            c.set_pl(Some(Pl::default().user(ALICE, Lv::Int(lvl)).event(key, Lv::Int(50)).content()));
+            c.ev = c.mk(ty, ALICE, None, cobj(json!({})));
+            g.emit("sys-type-alias", &c, 1);
+        }
+    }
+}
+
 fn sys_misc(g: &mut Gen<'_>, v: u32) {
     // aliases with every sender membership (v6+ falls through to the generic rules)
     for sm in 0..N_MEMB {
@@ -1411,6 +1428,7 @@ pub fn generate(tier: &str, seed: u64, sink: &mut dyn FnMut(&str, &Case)) {
         sys_gated(&mut g, v);
         sys_power_levels(&mut g, v);
         sys_misc(&mut g, v);
+        sys_type_alias(&mut g, v);
     }
     let n_random = if thorough { 400_000 } else { 12_000 };
     let mut r = Rng::new(seed ^ 0xC08_0001);
